@@ -169,6 +169,12 @@ def std_pairings(reg, W=(1, 2), with_subtotals=True, sizes=None):
             configs=conly, quick=2, thorough=2)
     reg.add(Schema("ca_cats_x_items", [C], [("ca_cats", 0), ("ca_items", 0)], weighted=True), W,
             configs=ronly, quick=2, thorough=2)
+    # enum and categorical-date dimensions against CAT and MR
+    reg.add(S.schema2("datetime_x_cat3", S.enum("e", "datetime", 2, missing_first=True), B3, weighted=True), W,
+            configs=conly, quick=2, thorough=3)
+    reg.add(S.schema2("cat3_x_text", A3, S.enum("e", "text", 2)), configs=ronly, quick=2, thorough=3)
+    reg.add(S.schema2("catdate3_x_mr", D3, M), configs=ronly, quick=2, thorough=2)
+    reg.add(S.schema2("mr_x_catdate3", M, D3), configs=conly, quick=2, thorough=2)
     # numeric arrays: rows = array items (counts are the valid counts of each item)
     NAV = (None, (1, None), (None, 3), (1, 3))
     num = {"measures": ["mean"], "numarr": NA}
